@@ -173,6 +173,10 @@ MA_NAMES = {0: "sma", 1: "ema", 2: "wma", 3: "dema", 4: "tema", 5: "trima", 6: "
             36: "vpwma", 37: "cwma", 38: "jsa", 39: "epma"}
 NO_PERIOD = {28, 29, 32}
 HOMOG = ["sma", "ema", "wma", "dema", "tema", "trima", "smma", "wilders", "vwma", "kama", "hma", "zlema", "t3", "midpoint"]
+# window definitions whose output must not carry a number before the window is complete (the tree's vwma, stochf and the
+# non-sequential donchian deliberately use partial windows there and are not held to this)
+NAN_WARMUP = ("sma", "wma", "trima", "mom", "roc", "rocp", "rocr", "rocr100", "midpoint", "midprice", "willr", "cci", "mfi",
+              "aroon_up", "aroon_down", "var", "stddev")
 ALL_SRC = D.SOURCES
 PRICE_SRC = [s for s in ALL_SRC if s != "volume"]
 
@@ -254,7 +258,50 @@ def run_case(ta, cs, stats):
         src = cs["src"] if takes_src else "close"
         mult = scale ** deg if not (takes_src and src == "volume") else 1.0
         k = cs.get("k", k)
-        res.append(mk(ind, field or "value", de, toks(o, k, mult), ci, k, series, D_params(kw), p=cs["p"], src=src))
+        res.append(mk(ind, field or "value", de, toks(o, k, mult), ci, k, series, D_params(kw), p=cs["p"], src=src,
+                      q=1 if de in NAN_WARMUP else 0))
+    elif kind == "window_short":
+        # inputs of 1 .. period+4 candles; position j of the trace = the result on the first j candles, sequential (its last
+        # entry) and non-sequential; an exception on a too-short input counts as "no value"
+        de, ind, field, k, pk, takes_src, deg = cs["row"]
+        kw = {pk: cs["p"]}
+        if takes_src:
+            kw["source_type"] = cs["src"]
+        src = cs["src"] if takes_src else "close"
+        m = cs["p"] + 4
+        ci = {k2: v[:m] for k2, v in ci.items()}
+        for seq in (True, False):
+            o = []
+            for L in range(1, m + 1):
+                stats["calls"] += 1
+                try:
+                    v = fld(getattr(ta, ind)(c[:L], sequential=seq, **kw), field)
+                    v = v[-1] if seq else v
+                    o.append(float(v) if v is not None and not isinstance(v, np.ndarray) else float("nan"))
+                except Exception:
+                    o.append(float("nan"))
+            res.append(mk(ind, (field or "value") + (":last-of-sequential" if seq else ":non-sequential"), de, toks(o, k), ci, k,
+                          series + ["lengths 1..%d" % m], D_params(kw), p=cs["p"], src=src, q=1 if de in NAN_WARMUP else 0))
+    elif kind == "osc":
+        # oscillators defined as the difference of two moving averages of the periods THE CALLER PASSED (also fast > slow)
+        ind, f, sl, mt, src = cs["ind"], cs["f"], cs["s"], cs["matype"], cs["src"]
+        if ind == "vwmacd":
+            r = call(ta, stats, "vwmacd", c, fast_period=f, slow_period=sl, signal_period=cs["g"])
+            a = call(ta, stats, "vwma", c, period=f)
+            b = call(ta, stats, "vwma", c, period=sl)
+            kw = dict(fast_period=f, slow_period=sl, signal_period=cs["g"])
+            m4, s4, h4 = toks(r.macd, 4), toks(r.signal, 4), toks(r.hist, 4)
+            res.append(mk("vwmacd", "macd", "lin", m4, ci, 4, series, D_params(kw), xa=toks(a, 4), xb=toks(b, 4), ca=1, cb=-1, cd=1))
+            res.append(mk("vwmacd", "hist", "lin", h4, ci, 4, series, D_params(kw), xa=m4, xb=s4, ca=1, cb=-1, cd=1))
+        else:
+            kw = dict(fast_period=f, slow_period=sl, matype=mt, source_type=src)
+            o = call(ta, stats, ind, c, **kw)
+            a = call(ta, stats, MA_NAMES[mt], c, period=f, source_type=src)
+            b = call(ta, stats, MA_NAMES[mt], c, period=sl, source_type=src)
+            if ind == "ppo":                          # ppo * slow / 100 = fast - slow (the product is formed from logged outputs)
+                o = np.asarray(o, dtype=float) * np.asarray(b, dtype=float) / 100.0
+            res.append(mk(ind, "value", "lin", toks(o, 4), ci, 4, series, D_params(kw), xa=toks(a, 4), xb=toks(b, 4),
+                          ca=1, cb=-1, cd=1, tol=1 if ind == "ppo" else 0))
     elif kind == "stoch":
         p, q, dd = cs["p"], cs["q"], cs["d"]
         c = c_run
@@ -290,7 +337,7 @@ def run_case(ta, cs, stats):
         ef = call(ta, stats, "ema", c, period=f, source_type=src)
         es = call(ta, stats, "ema", c, period=s, source_type=src)
         res.append(mk("macd", "macd", "lin", m, ci, 4, series, D_params(kw), xa=toks(ef, 4), xb=toks(es, 4), ca=1, cb=-1, cd=1,
-                      decp=s, q=1, src=src))
+                      decp=max(f, s), q=1, src=src))
     elif kind == "dema":
         p, src = cs["p"], cs["src"]
         kw = dict(period=p, source_type=src)
@@ -454,6 +501,26 @@ def plan(ctx):
         for src in rng.sample(PRICE_SRC, 2):
             j += 1
             cases.append({"kind": "macd", "f": f, "s": s, "g": g, "src": src, "series": (kinds[j % 3], nlong, 1 + j % 4)})
+    # fast > slow is a legal call: the relations hold for the periods the caller passed
+    for f, s, g in ([(26, 12, 9), (14, 3, 5)] if quick else [(26, 12, 9), (30, 7, 4), (14, 3, 5), (9, 8, 2), (20, 5, 9)]):
+        j += 1
+        cases.append({"kind": "macd", "f": f, "s": s, "g": g, "src": rng.choice(PRICE_SRC), "series": (kinds[j % 3], 600, 1 + j % 4)})
+    for ind in ("apo", "ppo", "vwmacd"):
+        for f, s in ([(12, 26), (26, 12), (5, 2)] if quick else [(12, 26), (26, 12), (5, 2), (3, 10), (30, 7), (60, 2)]):
+            for mt in ([1] if ind == "vwmacd" else ([0, 1] if quick else [0, 1, 2, 12])):
+                j += 1
+                cases.append({"kind": "osc", "ind": ind, "f": f, "s": s, "g": 4, "matype": mt, "src": rng.choice(PRICE_SRC),
+                              "series": pick_series(j)})
+    # inputs shorter than the window, sequential and non-sequential
+    for row in WINDOW + [r + (0,) for r in SQUARES]:
+        if row[4] and row[1] != "bollinger_bands":
+            for p in ([3, 10] if quick else [2, 3, 5, 10, 14, 30]):
+                j += 1
+                cs = {"kind": "window_short", "row": row, "p": p, "src": rng.choice(PRICE_SRC) if row[5] else "close",
+                      "series": (["random", "trend", "spike"][j % 3], 80, 1 + j % 3)}
+                if row[0] in ("var", "stddev"):
+                    cs["cap"] = (5, 60)
+                cases.append(cs)
     for p in ([3, 5, 9] if quick else [2, 3, 4, 5, 6, 8, 9, 10, 12]):
         for src in rng.sample(PRICE_SRC, 2):
             j += 1
